@@ -120,3 +120,308 @@ Section ShuffleP.
     rewrite E. cbn [bind]. apply IH. rewrite L. exact Hr.
   Qed.
 End ShuffleP.
+
+(* ================================================================== *)
+(* what an extension list puts on the wire, by the codecs of Model/Ext.v *)
+
+Definition wire_pair (e : ext) : option (N * bytes) :=
+  if ext_absent e then None else Some (ext_id e, ext_body e).
+Definition wire_of (es : list ext) : list (N * bytes) :=
+  flat_map (fun e => match wire_pair e with Some w => [w] | None => [] end) es.
+(* the padding extension after Update(..) of MarshalClientHelloNoECH: any state *)
+Definition set_pad (l : N) (w : bool) (e : ext) : ext :=
+  match e with EPadding _ _ pol => EPadding l w pol | _ => e end.
+
+(* wire_pair is what Read emits (C08 layout theorem) *)
+Lemma wire_pair_read e : wf_ext e = true ->
+  ext_read e (ext_len e) =
+    Ok (match wire_pair e with Some (id, b) => enc_u16 id ++ enc_u16lp b | None => [] end).
+Proof.
+  intros H. pose proof (read_layout e H) as L. unfold wire_pair.
+  destruct (ext_absent e); [apply L | apply L].
+Qed.
+
+Lemma wire_of_cons e es : wire_of (e :: es) = wire_of [e] ++ wire_of es.
+Proof. unfold wire_of. cbn [flat_map]. rewrite app_nil_r. reflexivity. Qed.
+
+Lemma bytes_eqb_refl b : bytes_eqb b b = true.
+Proof. apply bytes_eqb_eq. reflexivity. Qed.
+
+(* one step of the sequence matcher *)
+Lemma seq_step c s ss e ws :
+  match presence_of c s with
+  | Must => ext_absent e = false /\ ext_matches c s (ext_id e, ext_body e) = true
+  | MustNot => ext_absent e = true
+  | May => ext_absent e = true \/ (ext_absent e = false /\ ext_matches c s (ext_id e, ext_body e) = true)
+  end ->
+  seq_match c ss ws = true ->
+  seq_match c (s :: ss) (wire_of [e] ++ ws) = true.
+Proof.
+  intros Hp Hr. cbn [seq_match]. unfold wire_of, wire_pair. cbn [flat_map].
+  destruct (presence_of c s).
+  - destruct Hp as [Ha Hm]. rewrite Ha. cbn [app]. rewrite Hm, Hr. reflexivity.
+  - rewrite Hp. cbn [app]. exact Hr.
+  - destruct Hp as [Ha|[Ha Hm]]; rewrite Ha; cbn [app].
+    + destruct ws; [exact Hr|]. rewrite Hr. apply orb_true_r.
+    + rewrite Hm, Hr. reflexivity.
+Qed.
+
+(* ---- GREASE facts in the vocabulary of this file ---- *)
+Lemma boring_u16 sd idx v : Grease.boring_grease sd idx = Ok v -> Grease.is_grease v = true.
+Proof. apply boring_is_grease. Qed.
+
+Lemma regrease_match sd idx l l' : Grease.map_res (Grease.regrease sd idx) l = Ok l' -> list_match gmatch l l' = true.
+Proof.
+  intros H. pose proof (regreased_reserved _ _ _ (map_regrease _ _ _ _ H) (boring_is_grease sd idx)) as F.
+  clear H. induction F as [|a b l l' Hab _ IH]; [reflexivity|].
+  cbn [list_match]. unfold gmatch at 1. destruct (Grease.is_grease a).
+  - rewrite Hab. exact IH.
+  - subst b. rewrite N.eqb_refl. exact IH.
+Qed.
+
+(* ---- per-extension: the preset image of a spec extension matches the spec extension ---- *)
+
+Lemma curves_match c cs cs' : list_match gmatch cs cs' = true -> wf_ext (ESupportedCurves cs') = true ->
+  ext_matches c (SExt (ESupportedCurves cs)) (ext_id (ESupportedCurves cs'), ext_body (ESupportedCurves cs')) = true.
+Proof.
+  intros Hm Hwf. destruct (wf_parts _ Hwf) as (_ & Hf & Hl). cbn [fields_ok ext_len] in Hf, Hl.
+  cbn [ext_matches ext_id ext_body]. rewrite N.eqb_refl. cbn [andb].
+  unfold u16_list_of, u16s_body. rewrite read_enc_u16lp_nil by (rewrite blen_flat_u16; lia).
+  rewrite read_u16s_flat by exact Hf. exact Hm.
+Qed.
+
+Lemma versions_match c vs vs' : list_match gmatch vs vs' = true -> wf_ext (ESupportedVersions vs') = true ->
+  ext_matches c (SExt (ESupportedVersions vs)) (ext_id (ESupportedVersions vs'), ext_body (ESupportedVersions vs')) = true.
+Proof.
+  intros Hm Hwf. destruct (wf_parts _ Hwf) as (_ & Hf & Hl). cbn [fields_ok ext_len] in Hf, Hl.
+  apply andb_true_iff in Hf. destruct Hf as [Hf1 Hf2].
+  cbn [ext_matches ext_id ext_body]. rewrite N.eqb_refl. cbn [andb].
+  unfold u16_list8_of. rewrite read_enc_u8lp_nil by (rewrite blen_flat_u16; lia).
+  rewrite read_u16s_flat by exact Hf1. exact Hm.
+Qed.
+
+Lemma parse_shares_flat (ks : list (N * bytes)) : forall fuel,
+  forallb (fun k => (fst k <? 65536) && (blen (snd k) <? 65536)) ks = true ->
+  (length ks <= fuel)%nat ->
+  parse_shares fuel (flat_map (fun k => enc_u16 (fst k) ++ enc_u16lp (snd k)) ks) = Some ks.
+Proof.
+  induction ks as [|[g d] ks IH]; intros fuel H Hf; [destruct fuel; reflexivity|].
+  cbn [forallb fst snd] in H. rewrite !andb_true_iff in H. destruct H as [[Hg Hd] Hr].
+  destruct fuel as [|fuel]; [cbn in Hf; lia|].
+  cbn [flat_map fst snd]. rewrite <- !app_assoc.
+  change (parse_shares (S fuel) (enc_u16 g ++ enc_u16lp d ++ flat_map (fun k => enc_u16 (fst k) ++ enc_u16lp (snd k)) ks))
+    with (match read_u16 (enc_u16 g ++ enc_u16lp d ++ flat_map (fun k => enc_u16 (fst k) ++ enc_u16lp (snd k)) ks) with
+          | None => None
+          | Some (g0, s1) => match read_u16lp s1 with
+                             | None => None
+                             | Some (d0, s2) => match parse_shares fuel s2 with Some l => Some ((g0, d0) :: l) | None => None end
+                             end
+          end).
+  rewrite read_enc_u16 by lia. rewrite read_enc_u16lp by lia. rewrite IH by (try exact Hr; cbn in Hf; lia). reflexivity.
+Qed.
+
+Lemma group_share_len_key_size g : group_share_len g = key_size g.
+Proof. reflexivity. Qed.
+
+Lemma preset_shares_match sd : forall ks keys ks' keys',
+  preset_shares sd keys ks = Ok (ks', keys') -> list_match share_match ks ks' = true.
+Proof.
+  induction ks as [|[g d] ks IH]; intros keys ks' keys' H; cbn [preset_shares] in H.
+  - inversion H; subst. reflexivity.
+  - destruct (Grease.is_grease g) eqn:Gg.
+    + destruct (Grease.boring_grease sd Grease.ssl_grease_group) as [g'| |] eqn:Bg; cbn [bind] in H; try discriminate.
+      destruct (preset_shares sd keys ks) as [[r k]| |] eqn:Er; cbn [bind fst snd] in H; try discriminate.
+      inversion H; subst. cbn [list_match share_match]. rewrite Gg, (boring_is_grease _ _ _ Bg), bytes_eqb_refl.
+      cbn [andb]. eapply IH; eassumption.
+    + destruct (1 <? blen d) eqn:Ed.
+      * destruct (preset_shares sd keys ks) as [[r k]| |] eqn:Er; cbn [bind fst snd] in H; try discriminate.
+        inversion H; subst. cbn [list_match share_match]. rewrite Gg, N.eqb_refl, Ed, bytes_eqb_refl.
+        cbn [andb]. eapply IH; eassumption.
+      * destruct (key_size g) as [n|] eqn:Ek; [|discriminate].
+        destruct keys as [|k0 keys0]; [discriminate|].
+        destruct (blen k0 =? n) eqn:En; cbn [negb] in H; [|discriminate].
+        destruct (preset_shares sd keys0 ks) as [[r k]| |] eqn:Er; cbn [bind fst snd] in H; try discriminate.
+        inversion H; subst. cbn [list_match share_match]. rewrite Gg, N.eqb_refl, Ed, group_share_len_key_size, Ek, En.
+        cbn [andb]. eapply IH; eassumption.
+Qed.
+
+Lemma sum_map_bound {A} (f : A -> N) (l : list A) x : In x l -> f x <= sum_map f l.
+Proof.
+  induction l as [|y l IH]; [intros []|]. intros [->|H]; cbn [sum_map]; [lia|]. specialize (IH H). lia.
+Qed.
+
+Lemma sum_map_count {A} (f : A -> N) (l : list A) : (forall x, In x l -> 1 <= f x) -> N.of_nat (length l) <= sum_map f l.
+Proof.
+  induction l as [|y l IH]; intros H; cbn [sum_map length]; [lia|].
+  pose proof (H y (or_introl eq_refl)). assert (N.of_nat (length l) <= sum_map f l) by (apply IH; intros; apply H; right; assumption). lia.
+Qed.
+
+Lemma keyshare_match c ks ks' : list_match share_match ks ks' = true -> wf_ext (EKeyShare ks') = true ->
+  ext_matches c (SExt (EKeyShare ks)) (ext_id (EKeyShare ks'), ext_body (EKeyShare ks')) = true.
+Proof.
+  intros Hm Hwf. destruct (wf_parts _ Hwf) as (_ & Hf & Hl). cbn [fields_ok ext_len] in Hf, Hl.
+  cbn [ext_matches ext_id ext_body]. rewrite N.eqb_refl. cbn [andb].
+  set (X := flat_map (fun k : N * bytes => enc_u16 (fst k) ++ enc_u16lp (snd k)) ks').
+  assert (HX : blen X = key_shares_len ks').
+  { unfold X. rewrite <- key_shares_bytes_spec. apply blen_key_shares_bytes. }
+  unfold shares_of. rewrite read_enc_u16lp_nil by lia.
+  assert (HL : (length ks' <= length X)%nat).
+  { assert (N.of_nat (length ks') <= key_shares_len ks') by (apply sum_map_count; intros; lia).
+    unfold blen in HX. lia. }
+  subst X. rewrite parse_shares_flat; [exact Hm| |exact HL].
+  - apply forallb_forall. intros k Hk. rewrite forallb_forall in Hf. specialize (Hf k Hk).
+    pose proof (sum_map_bound (fun k => 4 + blen (snd k)) ks' k Hk) as Hb. unfold key_shares_len in Hl.
+    cbn beta in Hb. apply andb_true_iff. split; [exact Hf|lia].
+Qed.
+
+Lemma nth_error_mem (l : list N) i x : nth_error l i = Some x -> mem_N x l = true.
+Proof.
+  intros H. apply nth_error_In in H. unfold mem_N. apply existsb_exists. exists x. split; [exact H|apply N.eqb_refl].
+Qed.
+
+Lemma ech_match c su ci en pl d e : ech_init su ci en pl d = Ok e -> wf_ext e = true ->
+  ext_absent e = false /\ ext_matches c (SGreaseECH su ci en pl) (ext_id e, ext_body e) = true.
+Proof.
+  unfold ech_init. intros H Hwf.
+  destruct (match ci with [] => Ok (ed_cfg_byte d) | _ => of_opt E_FRESH (nth_error ci (ed_cfg_idx d)) end) as [cfgid| |] eqn:Ec;
+    cbn [bind] in H; try discriminate.
+  destruct (match su with [] => Ok (1, 1) | _ => of_opt E_FRESH (nth_error su (ed_suite_idx d)) end) as [[kdf aead]| |] eqn:Es;
+    cbn [bind] in H; try discriminate.
+  destruct (match pl with [] => Ok 128 | _ => of_opt E_FRESH (nth_error pl (ed_plen_idx d)) end) as [plen| |] eqn:Ep;
+    cbn [bind] in H; try discriminate.
+  destruct (ech_aead_ok aead) eqn:Ea; cbn [negb] in H; [|discriminate].
+  destruct (blen (ed_payload d) =? plen + ECH_TAG_LEN) eqn:El; cbn [negb] in H; [|discriminate].
+  destruct (empty en && negb (blen (ed_enc d) =? 32)) eqn:Ee; [discriminate|].
+  inversion H; subst e; clear H.
+  destruct (wf_parts _ Hwf) as (_ & Hf & Hl). cbn [fields_ok ext_len] in Hf, Hl.
+  apply andb_true_iff in Hf. destruct Hf as [Hk Ha].
+  split; [reflexivity|].
+  cbn [ext_matches ext_id ext_body]. rewrite N.eqb_refl. cbn [andb].
+  unfold ech_body_ok. cbn [app].
+  rewrite read_enc_u16 by lia. cbn [obind]. rewrite read_enc_u16 by lia. cbn [obind].
+  cbn [app read_u8 obind]. rewrite read_enc_u16lp by lia. cbn [obind]. rewrite read_enc_u16lp_nil by lia. cbn [obind empty andb].
+  apply N.eqb_eq in El. unfold ECH_TAG_LEN in El.
+  repeat (apply andb_true_iff; split).
+  - destruct su as [|s0 su']; [inversion Es; reflexivity|].
+    unfold of_opt in Es. destruct (nth_error (s0 :: su') (ed_suite_idx d)) as [[k a]|] eqn:En; inversion Es; subst.
+    apply existsb_exists. exists (kdf, aead). split; [eapply nth_error_In; exact En|]. cbn [fst snd]. rewrite !N.eqb_refl. reflexivity.
+  - destruct ci as [|c0 ci']; [reflexivity|].
+    unfold of_opt in Ec. destruct (nth_error (c0 :: ci') (ed_cfg_idx d)) as [x|] eqn:En; inversion Ec; subst.
+    eapply nth_error_mem; exact En.
+  - destruct (empty en) eqn:E0; cbn [andb] in Ee.
+    + apply negb_false_iff in Ee. exact Ee.
+    + apply bytes_eqb_refl.
+  - lia.
+  - replace (blen (ed_payload d) - 16) with plen by lia.
+    destruct pl as [|p0 pl']; [inversion Ep; reflexivity|].
+    unfold of_opt in Ep. destruct (nth_error (p0 :: pl') (ed_plen_idx d)) as [x|] eqn:En; inversion Ep; subst.
+    eapply nth_error_mem; exact En.
+Qed.
+
+Lemma ech_init_nopad su ci en pl d e l w : ech_init su ci en pl d = Ok e -> set_pad l w e = e.
+Proof.
+  unfold ech_init. intros H.
+  destruct (match ci with [] => Ok (ed_cfg_byte d) | _ => of_opt E_FRESH (nth_error ci (ed_cfg_idx d)) end) as [cfgid| |];
+    cbn [bind] in H; try discriminate.
+  destruct (match su with [] => Ok (1, 1) | _ => of_opt E_FRESH (nth_error su (ed_suite_idx d)) end) as [[kdf aead]| |];
+    cbn [bind] in H; try discriminate.
+  destruct (match pl with [] => Ok 128 | _ => of_opt E_FRESH (nth_error pl (ed_plen_idx d)) end) as [plen| |];
+    cbn [bind] in H; try discriminate.
+  destruct (negb (ech_aead_ok aead)); [discriminate|].
+  destruct (negb (blen (ed_payload d) =? plen + ECH_TAG_LEN)); [discriminate|].
+  destruct (empty en && negb (blen (ed_enc d) =? 32)); [discriminate|].
+  inversion H; subst e. reflexivity.
+Qed.
+
+Lemma forallb_zbytes n : forallb (N.eqb 0) (zbytes n) = true.
+Proof. induction n; [reflexivity|]. cbn [zbytes forallb]. rewrite IHn. reflexivity. Qed.
+
+Ltac split_wf Hwf Hw1 Hw2 :=
+  cbn [forallb] in Hwf; apply andb_true_iff in Hwf; destruct Hwf as [Hw1 Hw2].
+
+(* ApplyPreset's extension loop: whatever the seed, the keys, the ECH draws and the later padding
+   decision are, the extensions it leaves - encoded by their codecs - match the spec's, one by one
+   and in order, in the sense of the property oracle. *)
+Lemma preset_exts_match sd c pl pw : forall es seen keys echs es',
+  preset_exts sd c seen keys echs es = Ok es' ->
+  forallb wf_ext es' = true ->
+  seq_match c (expect_exts seen es) (wire_of (map (set_pad pl pw) es')) = true.
+Proof.
+  induction es as [|s es IH]; intros seen keys echs es' H Hwf.
+  - cbn in H. inversion H; subst. reflexivity.
+  - destruct s as [e|su ci en pl0].
+    2:{ (* GREASE ECH *)
+      cbn [preset_exts] in H. destruct echs as [|d echs']; [discriminate|].
+      destruct (ech_init su ci en pl0 d) as [e| |] eqn:Ee; cbn [bind] in H; try discriminate.
+      destruct (preset_exts sd c seen keys echs' es) as [r'| |] eqn:Er; cbn [bind] in H; try discriminate.
+      inversion H; subst es'; clear H. split_wf Hwf Hw1 Hw2.
+      destruct (ech_match c _ _ _ _ _ _ Ee Hw1) as [Ha Hm].
+      pose proof (ech_init_nopad _ _ _ _ _ _ pl pw Ee) as Hp.
+      cbn [expect_exts map]. rewrite Hp, wire_of_cons. apply seq_step; [cbn [presence_of]; split; assumption|].
+      eapply IH; eassumption. }
+    destruct e; cbn [preset_exts] in H;
+    (* the constructors ApplyPreset leaves alone and the oracle compares verbatim *)
+    try (destruct (preset_exts sd c seen keys echs es) as [r'| |] eqn:Er; cbn [bind] in H; try discriminate;
+         inversion H; subst es'; clear H; split_wf Hwf Hw1 Hw2;
+         cbn [expect_exts map set_pad]; rewrite wire_of_cons;
+         apply seq_step; [|eapply IH; eassumption];
+         cbn [presence_of]; split; [reflexivity|];
+         cbn [ext_matches ext_id]; rewrite N.eqb_refl, bytes_eqb_refl; reflexivity).
+    + (* SNI *)
+      destruct (preset_exts sd c seen keys echs es) as [r'| |] eqn:Er; cbn [bind] in H; try discriminate.
+      inversion H; subst es'; clear H. split_wf Hwf Hw1 Hw2.
+      cbn [expect_exts map]. rewrite wire_of_cons. apply seq_step; [|eapply IH; eassumption].
+      cbn [presence_of]. destruct (empty host) eqn:Eh; cbn [andb set_pad ext_absent ext_matches ext_id].
+      * destruct (empty (c_sni c)) eqn:Ec.
+        -- apply empty_true_iff in Ec. rewrite Ec. reflexivity.
+        -- apply empty_false_iff in Ec. split; [apply N.eqb_neq; exact Ec|]. rewrite N.eqb_refl, bytes_eqb_refl. reflexivity.
+      * apply empty_false_iff in Eh. split; [apply N.eqb_neq; exact Eh|]. rewrite N.eqb_refl, bytes_eqb_refl. reflexivity.
+    + (* supported_groups *)
+      destruct (Grease.map_res (Grease.regrease sd Grease.ssl_grease_group) curves) as [cs'| |] eqn:Ec; cbn [bind] in H; try discriminate.
+      destruct (preset_exts sd c seen keys echs es) as [r'| |] eqn:Er; cbn [bind] in H; try discriminate.
+      inversion H; subst es'; clear H. split_wf Hwf Hw1 Hw2.
+      cbn [expect_exts map set_pad]. rewrite wire_of_cons. apply seq_step; [|eapply IH; eassumption].
+      cbn [presence_of]. split; [reflexivity|]. apply curves_match; [eapply regrease_match; exact Ec|exact Hw1].
+    + (* GREASE *)
+      destruct seen as [|[|seen]]; [| |discriminate].
+      * destruct (Grease.boring_grease sd Grease.ssl_grease_extension1) as [x| |] eqn:Ex; cbn [bind] in H; try discriminate.
+        destruct (preset_exts sd c 1 keys echs es) as [r'| |] eqn:Er; cbn [bind] in H; try discriminate.
+        inversion H; subst es'; clear H. split_wf Hwf Hw1 Hw2.
+        cbn [expect_exts map set_pad]. rewrite wire_of_cons. apply seq_step; [|eapply IH; eassumption].
+        cbn [presence_of]. split; [reflexivity|]. cbn [ext_matches ext_id ext_body].
+        rewrite (boring_is_grease _ _ _ Ex), bytes_eqb_refl. reflexivity.
+      * destruct (Grease.boring_grease sd Grease.ssl_grease_extension2) as [x| |] eqn:Ex; cbn [bind] in H; try discriminate.
+        destruct (preset_exts sd c 2 keys echs es) as [r'| |] eqn:Er; cbn [bind] in H; try discriminate.
+        inversion H; subst es'; clear H. split_wf Hwf Hw1 Hw2.
+        cbn [expect_exts map set_pad]. rewrite wire_of_cons. apply seq_step; [|eapply IH; eassumption].
+        cbn [presence_of]. split; [reflexivity|]. cbn [ext_matches ext_id ext_body].
+        rewrite (boring_is_grease _ _ _ Ex), bytes_eqb_refl. reflexivity.
+    + (* padding *)
+      destruct (preset_exts sd c seen keys echs es) as [r'| |] eqn:Er; cbn [bind] in H; try discriminate.
+      inversion H; subst es'; clear H. split_wf Hwf Hw1 Hw2.
+      cbn [expect_exts map set_pad]. rewrite wire_of_cons. apply seq_step; [|eapply IH; eassumption].
+      cbn [presence_of ext_absent ext_matches ext_id ext_body]. destruct pw; cbn [negb]; [right|left; reflexivity].
+      split; [reflexivity|]. rewrite N.eqb_refl, forallb_zbytes. reflexivity.
+    + (* key_share *)
+      destruct (preset_shares sd keys shares) as [[ks' keys']| |] eqn:Ek; cbn [bind fst snd] in H; try discriminate.
+      destruct (preset_exts sd c seen keys' echs es) as [r'| |] eqn:Er; cbn [bind] in H; try discriminate.
+      inversion H; subst es'; clear H. split_wf Hwf Hw1 Hw2.
+      cbn [expect_exts map set_pad]. rewrite wire_of_cons. apply seq_step; [|eapply IH; eassumption].
+      cbn [presence_of]. split; [reflexivity|]. apply keyshare_match; [eapply preset_shares_match; exact Ek|exact Hw1].
+    + (* supported_versions *)
+      destruct (Grease.map_res (Grease.regrease sd Grease.ssl_grease_version) versions) as [vs'| |] eqn:Ec; cbn [bind] in H; try discriminate.
+      destruct (preset_exts sd c seen keys echs es) as [r'| |] eqn:Er; cbn [bind] in H; try discriminate.
+      inversion H; subst es'; clear H. split_wf Hwf Hw1 Hw2.
+      cbn [expect_exts map set_pad]. rewrite wire_of_cons. apply seq_step; [|eapply IH; eassumption].
+      cbn [presence_of]. split; [reflexivity|]. apply versions_match; [eapply regrease_match; exact Ec|exact Hw1].
+    + (* pre_shared_key (uTLS) *)
+      destruct (preset_exts sd c seen keys echs es) as [r'| |] eqn:Er; cbn [bind] in H; try discriminate.
+      inversion H; subst es'; clear H. split_wf Hwf Hw1 Hw2.
+      cbn [expect_exts map set_pad]. rewrite wire_of_cons. apply seq_step; [|eapply IH; eassumption].
+      cbn [presence_of]. destruct (ext_absent (EUtlsPreSharedKey has_session cached (c_omit_psk c) ids binders)); [left; reflexivity|right; split; reflexivity].
+    + (* pre_shared_key (fake) *)
+      destruct (preset_exts sd c seen keys echs es) as [r'| |] eqn:Er; cbn [bind] in H; try discriminate.
+      inversion H; subst es'; clear H. split_wf Hwf Hw1 Hw2.
+      cbn [expect_exts map set_pad]. rewrite wire_of_cons. apply seq_step; [|eapply IH; eassumption].
+      cbn [presence_of]. destruct (ext_absent (EFakePreSharedKey (c_omit_psk c) ids binders)); [left; reflexivity|right; split; reflexivity].
+Qed.
